@@ -91,6 +91,39 @@ func genHistory(t *rapid.T) []stack.Op {
 			ops = append(ops, stack.Op{Kind: "del", Peer: -2, Sess: mine})
 		}
 	}
+	// third scripted core (one history in four): a rule is created, removed, created again and used, then the session ends.  With
+	// every single position of the call stream failing in turn, this is "the first creation failed, the removal found nothing,
+	// the second creation succeeded": whatever the session remembers from the first round must not make it forget the second
+	if rapid.IntRange(0, 3).Draw(t, "core3") == 0 {
+		id := uint32(rapid.IntRange(1, 2).Draw(t, "again_id"))
+		kind := rapid.SampledFrom([]string{"URR", "URR", "FAR", "QER", "PDR"}).Draw(t, "again_kind")
+		mk := func() stack.RuleOp {
+			switch kind {
+			case "URR":
+				return stack.RuleOp{Verb: "create", Kind: "URR", ID: id, Method: 2, Trig: 2}
+			case "FAR":
+				return stack.RuleOp{Verb: "create", Kind: "FAR", ID: id, Action: 2, HasAction: true}
+			case "QER":
+				return stack.RuleOp{Verb: "create", Kind: "QER", ID: id, QFI: 7}
+			}
+			return stack.RuleOp{Verb: "create", Kind: "PDR", ID: id, Prec: 1}
+		}
+		ops = append(ops, stack.Op{Kind: "est", Peer: 0, Node: 0, Sess: -1, CP: 0x3200, Rules: []stack.RuleOp{mk()}})
+		mine := nsess
+		sessNode = append(sessNode, 0)
+		nsess++
+		ops = append(ops, stack.Op{Kind: "mod", Peer: -2, Sess: mine, Rules: []stack.RuleOp{{Verb: "remove", Kind: kind, ID: id}}},
+			stack.Op{Kind: "mod", Peer: -2, Sess: mine, Rules: []stack.RuleOp{mk()}})
+		use := mk()
+		use.Verb = "update"
+		if kind == "URR" && rapid.Bool().Draw(t, "query") {
+			use = stack.RuleOp{Verb: "query", Kind: "URR", ID: id}
+		}
+		ops = append(ops, stack.Op{Kind: "mod", Peer: -2, Sess: mine, Rules: []stack.RuleOp{use}})
+		if rapid.Bool().Draw(t, "end_now3") {
+			ops = append(ops, stack.Op{Kind: "del", Peer: -2, Sess: mine})
+		}
+	}
 	for i := 0; i < n; i++ {
 		k := rapid.SampledFrom([]string{"assoc", "est", "est", "est", "mod", "mod", "mod", "mod", "mod", "modnode", "del", "report", "rsp0", "rsp", "moddead"}).Draw(t, "op")
 		switch k {
